@@ -323,7 +323,7 @@ func (p *Properties) Encode(pkt byte, mods Mods, b *bytes.Buffer, n int) {
 		buf.WriteByte(p.RetainAvailable)
 	}
 
-	if !mods.DisallowProblemInfo && p.canEncode(pkt, PropUser) {
+	if (!mods.DisallowProblemInfo || pkt == Publish) && p.canEncode(pkt, PropUser) { // [MQTT-3.1.2-29] does not apply to the user properties of a forwarded PUBLISH
 		pb := mempool.GetBuffer()
 		defer mempool.PutBuffer(pb)
 		for _, v := range p.User {
